@@ -1,5 +1,6 @@
 // stack_sim - link layer configurations, glue and plan generation for the whole-peripheral world (see stack_world.hpp)
 #include "stack_world.hpp"
+#include "nrf_bridge.hpp"
 
 #include <bluetoe/server.hpp>
 #include <bluetoe/link_layer.hpp>
@@ -134,6 +135,42 @@ using ll4 = ll::link_layer< gatt_server, stack::sim_radio,
     ll::white_list< 2 >,
     ll::advertising_interval< 50 > >;
 
+// configurations 0..4 on the real nRF52 radio front end (harness/nrf_bridge.hpp)
+using ll0n = ll::link_layer< gatt_server, stack::nrf_bridge_radio,
+    ll::connection_callbacks< stack::callback_recorder, recorder > >;
+
+using ll1n = ll::link_layer< gatt_server, stack::nrf_bridge_radio,
+    ll::connection_callbacks< stack::callback_recorder, recorder >,
+    ll::buffer_sizes< 100, 100 >,
+    ll::peripheral_latency_ignored,
+    ll::white_list< 3 >,
+    ll::variable_advertising_channel_map,
+    ll::sleep_clock_accuracy_ppm< 100 >,
+    ll::advertising_interval< 30 > >;
+
+using ll2n = ll::link_layer< gatt_server, stack::nrf_bridge_radio,
+    ll::connection_callbacks< stack::callback_recorder, recorder >,
+    ll::peripheral_latency_strict,
+    ll::no_auto_start_advertising,
+    ll::advertising_interval< 20 >,
+    ll::sleep_clock_accuracy_ppm< 20 > >;
+
+using ll3n = ll::link_layer< gatt_server, stack::nrf_bridge_radio,
+    ll::connection_callbacks< stack::callback_recorder, recorder >,
+    ll::peripheral_latency_configuration< ll::peripheral_latency::listen_if_last_received_not_empty, ll::peripheral_latency::listen_if_unacknowledged_data >,
+    ll::buffer_sizes< 61, 200 >,
+    ll::variable_advertising_channel_map,
+    ll::advertising_interval< 1000 > >;
+
+using ll4n = ll::link_layer< gatt_server, stack::nrf_bridge_radio,
+    ll::connection_callbacks< stack::callback_recorder, recorder >,
+    ll::connectable_undirected_advertising,
+    ll::connectable_directed_advertising,
+    ll::scannable_undirected_advertising,
+    ll::non_connectable_undirected_advertising,
+    ll::white_list< 2 >,
+    ll::advertising_interval< 50 > >;
+
 // link encryption: legacy security manager, bond data base, small buffers and latency
 using ll5 = ll::link_layer< gatt_server_enc, sim_radio_enc,
     ll::connection_callbacks< stack::callback_recorder, recorder >,
@@ -193,13 +230,17 @@ template < class LL > bool app_change_adv( LL& l, std::int64_t type, std::int64_
 }
 template < class LL > bool app_change_adv( LL&, std::int64_t, std::int64_t, std::false_type ) { return false; }
 
-template < class LL, bool WhiteList, bool VarMap, bool NoAutoStart, bool MultiAdv = false, bool Encryption = false >
+template < class LL, bool RealFront > struct link_holder { std::unique_ptr< LL > link{ new LL }; };
+template < class LL > struct link_holder< LL, true > { stack::zeroed< LL > link; };
+
+template < class LL, bool WhiteList, bool VarMap, bool NoAutoStart, bool MultiAdv = false, bool Encryption = false, bool RealFront = false >
 void run_config( const sim::Plan& plan, sim::Result& res, unsigned latency_features, unsigned sca, unsigned adv_interval, unsigned wl_size, unsigned rx, unsigned tx )
 {
     recorder = stack::callback_recorder();
     std::memset( value_b, 0x42, sizeof value_b );
     std::memcpy( value_secret, secret_init, sizeof value_secret );
-    std::unique_ptr< LL > link( new LL );
+    link_holder< LL, RealFront > holder;
+    auto& link = holder.link;
     stack::ll_access acc;
     acc.run = [&]{ link->run(); };
     acc.event_counter = [&]{ return static_cast< unsigned >( link->connection_event_counter() ); };
@@ -242,6 +283,7 @@ void run_config( const sim::Plan& plan, sim::Result& res, unsigned latency_featu
     res.nontrivial = w.adv_pdus >= 3 && ( w.connection_events >= 5 || plan.property == "C24" || plan.property == "C25" );
     if ( plan.property == "C28" ) res.nontrivial = w.enc_completed + w.enc_rejected > 0;
     stack::g_current_radio = nullptr;
+    nrf_shim::wfi = nullptr;
 }
 
 struct stack_harness : sim::Harness
@@ -250,7 +292,7 @@ struct stack_harness : sim::Harness
     std::vector< std::string > properties() const override { return { "C20", "C21", "C22", "C23", "C24", "C25", "C27", "C28", "C29" }; }
     std::string nontrivial_rule( const std::string& ) const override
     {
-        return "seeded plans against the whole peripheral (7 link layer configurations, two of them with link encryption, a legacy security manager and a bond data base): scanners and initiators with well formed and malformed requests, a reference central with drifting clock "
+        return "seeded plans against the whole peripheral (12 link layer configurations: 5 option sets, each on the contract radio of the harness and on the real nRF52 radio front end, and two with link encryption, a legacy security manager and a bond data base): scanners (random and public addresses) and initiators with well formed and malformed requests, a reference central with drifting clock "
                "(CSA#1, anchors, ARQ, MD bursts, LL control PDUs of every opcode and length, connection/channel-map/PHY updates with legal and illegal instants), application calls between events "
                "(notify/indicate with event cancellation, disconnect, peripheral initiated procedures, white list, advertising map/start/stop), air faults attached to connection events "
                "(loss or CRC error towards the peripheral, loss towards the central, silent central); non-trivial = >=3 advertising PDUs and >=5 connection events (advertising properties: >=3 PDUs); distinct = distinct trace hashes";
@@ -258,10 +300,10 @@ struct stack_harness : sim::Harness
     std::vector< std::string > real_components() const override
     {
         return { "bluetoe/link_layer/link_layer.hpp", "advertising.hpp", "peripheral_latency.hpp", "channel_map.cpp", "delta_time.cpp", "connection_callbacks.hpp + utility/ring.hpp", "white_list.hpp",
-                 "ll_l2cap_sdu_buffer.hpp", "ll_data_pdu_buffer.hpp", "ring_buffer.hpp", "l2cap.hpp", "server.hpp (small GATT server)" };
+                 "ll_l2cap_sdu_buffer.hpp", "ll_data_pdu_buffer.hpp", "ring_buffer.hpp", "l2cap.hpp", "server.hpp (small GATT server)", "configurations 7..11: bindings/nordic/nrf52/include/bluetoe/nrf52.hpp (radio front end: scheduling, radio interrupt handler, scan request check, run loop)" };
     }
-    std::vector< std::string > stub_components() const override { return { "radio (harness/sim_radio.hpp: scheduled_radio contract incl. scan request handling)", "central / scanners / initiators (reference, from the Core specification)", "application", "air", "clocks of both devices" }; }
-    std::uint64_t default_runs( const std::string&, bool thorough ) const override { return thorough ? 6000000 : 150000; }
+    std::vector< std::string > stub_components() const override { return { "configurations 0..6: radio (harness/sim_radio.hpp: scheduled_radio contract incl. scan request handling)", "configurations 7..11: the Hardware abstraction below nrf52.hpp (harness/nrf_bridge.hpp; nrf52.cpp is not compiled)", "central / scanners / initiators (reference, from the Core specification)", "application", "air", "clocks of both devices" }; }
+    std::uint64_t default_runs( const std::string&, bool thorough ) const override { return thorough ? 6000000 : 200000; }
     std::vector< std::string > op_names() const override { return { "run", "scan_request", "connect_request", "air_fault", "central_control", "central_update", "central_l2cap", "app", "central_terminate", "central_encryption" }; }
 
     sim::Plan generate( std::uint64_t seed, const std::string& property, bool thorough ) const override
@@ -269,9 +311,9 @@ struct stack_harness : sim::Harness
         sim::Rng rng( seed );
         sim::Plan p;
         p.harness = name(); p.property = property; p.seed = seed;
-        p.config = static_cast< int >( rng.below( 7 ) );
+        p.config = static_cast< int >( rng.below( 12 ) );
         if ( property == "C28" ) p.config = 5 + static_cast< int >( rng.below( 2 ) );
-        static const int own_sca[ 7 ] = { 500, 100, 20, 500, 500, 500, 500 };
+        static const int own_sca[ 12 ] = { 500, 100, 20, 500, 500, 500, 500, 500, 100, 20, 500, 500 };
         // the peripheral's clock error: inside its declared accuracy, extremes likely
         const int sel = static_cast< int >( rng.below( 5 ) );
         p.knobs[ "p_drift_ppm" ] = sel == 0 ? own_sca[ p.config ] : sel == 1 ? -own_sca[ p.config ] : sel == 2 ? 0 : rng.range( -own_sca[ p.config ], own_sca[ p.config ] );
@@ -279,10 +321,14 @@ struct stack_harness : sim::Harness
         const bool adv_focus = property == "C24" || property == "C25";
         const unsigned n_ops = static_cast< unsigned >( rng.range( 6, thorough ? 90 : 45 ) );
         bool connect_planned = false;
+        // white list configurations: scanners and initiators are likely to be devices the application has put on the list
+        const bool wl_cfg = p.config == 1 || p.config == 4 || p.config == 8 || p.config == 11;
+        std::int64_t wl_last = -1;
+        auto device_id = [&]() -> std::int64_t { return wl_cfg && wl_last >= 0 && rng.chance( 60 ) ? wl_last : rng.range( 0, 5 ); };
         for ( unsigned i = 0; i != n_ops; ++i )
         {
             const unsigned x = static_cast< unsigned >( rng.below( 100 ) );
-            if ( p.config >= 5 && rng.chance( property == "C28" ? 40 : 15 ) )
+            if ( ( p.config == 5 || p.config == 6 ) && rng.chance( property == "C28" ? 40 : 15 ) )
             {
                 // link encryption: procedures of an honest central, single PDUs of a hostile one, accesses to the protected characteristic
                 static const int kinds[] = { 0, 0, 0, 1, 2, 2, 3, 3, 4, 5, 6, 6, 6, 7, 7 };
@@ -290,14 +336,14 @@ struct stack_harness : sim::Harness
                 if ( rng.chance( 60 ) ) p.ops.push_back( sim::Op( stack::op_run, { rng.range( 1, 6 ) } ) );
             }
             else if ( x < 34 ) p.ops.push_back( sim::Op( stack::op_run, { rng.chance( 70 ) ? rng.range( 1, 6 ) : rng.range( 6, adv_focus ? 20 : 60 ) } ) );
-            else if ( x < ( adv_focus ? 50 : 38 ) ) p.ops.push_back( sim::Op( stack::op_scan_req, { rng.chance( 60 ) ? 0 : rng.range( 1, 5 ), rng.range( 0, 5 ) } ) );
+            else if ( x < ( adv_focus ? 50 : 38 ) ) p.ops.push_back( sim::Op( stack::op_scan_req, { rng.chance( 60 ) ? 0 : rng.range( 1, 6 ), device_id() } ) );
             else if ( x < ( adv_focus ? 62 : 50 ) )
             {
-                const std::int64_t kind = rng.chance( adv_focus ? 45 : 80 ) ? 0 : rng.range( 1, 8 );
+                const std::int64_t kind = rng.chance( adv_focus ? 45 : 80 ) ? 0 : rng.range( 1, 9 );
                 std::int64_t interval = rng.chance( 60 ) ? rng.range( 0, 40 ) : rng.range( 0, 399 );
                 std::int64_t latency = rng.chance( 50 ) ? 0 : rng.range( 0, 7 );
                 if ( property == "C23" && rng.chance( 70 ) ) latency = rng.range( 1, 7 );
-                p.ops.push_back( sim::Op( stack::op_connect, { kind, rng.range( 0, 5 ), interval, latency, rng.range( 0, 599 ), rng.range( 0, 7 ), rng.range( 0, 7 ), rng.range( 0, 11 ), rng.chance( 50 ) ? 0 : rng.range( 1, 100000 ),
+                p.ops.push_back( sim::Op( stack::op_connect, { kind, device_id(), interval, latency, rng.range( 0, 599 ), rng.range( 0, 7 ), rng.range( 0, 7 ), rng.range( 0, 11 ), rng.chance( 50 ) ? 0 : rng.range( 1, 100000 ),
                                                                rng.range( 0, 39 ), rng.range( 0, 999 ), rng.range( 0, 3 ) } ) );
                 connect_planned = true;
             }
@@ -336,8 +382,16 @@ struct stack_harness : sim::Harness
             {
                 std::int64_t kind = rng.range( 0, 9 );
                 if ( adv_focus && rng.chance( 60 ) ) kind = rng.range( 6, 9 );
-                if ( p.config == 4 && rng.chance( 35 ) ) kind = 9;
-                p.ops.push_back( sim::Op( stack::op_app, { kind, rng.range( 0, 11 ), rng.range( 0, 9 ), rng.chance( 50 ) ? rng.range( 0, 2000 ) : rng.range( 0, 400000 ) } ) );
+                if ( ( p.config == 4 || p.config == 11 ) && rng.chance( 35 ) ) kind = 9;
+                std::int64_t a = rng.range( 0, 11 ), b = rng.range( 0, 9 );
+                if ( kind == 6 && wl_cfg && rng.chance( 70 ) )
+                {
+                    static const int whats[] = { 0, 0, 0, 0, 1, 2, 3, 3, 4, 4 };
+                    b = whats[ rng.below( 10 ) ];
+                    a = b >= 3 ? ( rng.chance( 75 ) ? 1 : 0 ) : rng.range( 0, 5 );
+                    if ( b == 0 ) wl_last = a;
+                }
+                p.ops.push_back( sim::Op( stack::op_app, { kind, a, b, rng.chance( 50 ) ? rng.range( 0, 2000 ) : rng.range( 0, 400000 ) } ) );
             }
             else if ( x < 99 ) p.ops.push_back( sim::Op( stack::op_central_terminate, {} ) );
             else p.ops.push_back( sim::Op( stack::op_run, { rng.range( 100, 400 ) } ) );
@@ -350,7 +404,7 @@ struct stack_harness : sim::Harness
 
     void execute( const sim::Plan& plan, sim::Result& res ) const override
     {
-        const int c = ( ( plan.config % 7 ) + 7 ) % 7;
+        const int c = ( ( plan.config % 12 ) + 12 ) % 12;
         res.note( "config %d", c );
         switch ( c )
         {
@@ -362,6 +416,12 @@ struct stack_harness : sim::Harness
         case 4: run_config< ll4, true, false, false, true >( plan, res, 1 | 2 | 4 | 8 | 16, 500, 50, 2, 61, 61 ); break;
         case 5: run_config< ll5, false, false, false, false, true >( plan, res, 1 | 2 | 4 | 8 | 16, 500, 40, 0, 61, 61 ); break;
         case 6: run_config< ll6, false, false, false, false, true >( plan, res, 1 | 16, 500, 40, 0, 200, 61 ); break;
+        // the same link layers on the real nRF52 radio front end
+        case 7:  run_config< ll0n, false, false, false, false, false, true >( plan, res, 1 | 2 | 4 | 8 | 16, 500, 100, 0, 61, 61 ); break;
+        case 8:  run_config< ll1n, true, true, false, false, false, true >( plan, res, 32, 100, 30, 3, 100, 100 ); break;
+        case 9:  run_config< ll2n, false, false, true, false, false, true >( plan, res, 1 | 16, 20, 20, 0, 61, 61 ); break;
+        case 10: run_config< ll3n, false, true, false, false, false, true >( plan, res, 4 | 2, 500, 1000, 0, 200, 61 ); break;
+        case 11: run_config< ll4n, true, false, false, true, false, true >( plan, res, 1 | 2 | 4 | 8 | 16, 500, 50, 2, 61, 61 ); break;
         }
     }
 
